@@ -170,7 +170,8 @@ func init() {
 	mirrored["tars/servant.go"] = append(mirrored["tars/servant.go"], "ServantProxy.TarsInvoke", "ServantProxy.doInvoke")
 	mirrored["tars/tarsprotocol.go"] = append(mirrored["tars/tarsprotocol.go"], "Protocol.Invoke", "Protocol.rsp2Byte")
 	mirrored["tars/filter.go"] = append(mirrored["tars/filter.go"],
-		"filters.getMiddlewareClientFilter", "filters.getMiddlewareServerFilter")
+		"filters.getMiddlewareClientFilter", "filters.getMiddlewareServerFilter",
+		"filters.UseClientFilterMiddleware", "filters.UseServerFilterMiddleware")
 	mirrored["tars/errors.go"] = append(mirrored["tars/errors.go"], "Error.Error", "GetErrorCode", "Errorf")
 	mirrored["tars/adapter.go"] = append(mirrored["tars/adapter.go"], "AdapterProxy.Recv", "AdapterProxy.Send")
 	mirrored["tars/tools/tars2go/gencode/gen_go.go"] = append(mirrored["tars/tools/tars2go/gencode/gen_go.go"],
@@ -494,5 +495,131 @@ func init() {
 				}
 			}
 		}
+	})
+}
+
+// ---- filter.go: the middleware getters compose the chain from the registered list on every call ----
+//
+// Model/Filter.lean `getMiddlewareFilter` is a pure function of the list of middlewares, and
+// `Reg.after` says the list a call sees is the fold of the registrations made before it
+// (C01_filters_follow_registration). That is the code only if the getters keep no state of their
+// own: cpMwGetterStateless = 1 iff
+//   - struct `filters` has exactly the eight registration members (cf, preCfs, postCfs, cfms, sf,
+//     preSfs, postSfs, sfms) and none of a sync.* type,
+//   - neither getter calls a `.Do(…)`, assigns to a member of its receiver, or returns a member of
+//     its receiver, and each of them reads its list (`f.cfms` / `f.sfms`),
+//   - the Use…Middleware methods append to that list.
+func init() {
+	extras = append(extras, func(add func(string, int64, bool)) {
+		const rel = "tars/filter.go"
+		ff := parse(rel)
+		if ff == nil {
+			return
+		}
+		want := map[string]bool{"cf": true, "preCfs": true, "postCfs": true, "cfms": true, "sf": true, "preSfs": true, "postSfs": true, "sfms": true}
+		stateless := true
+		found := false
+		for _, d := range ff.f.Decls {
+			gd, ok := d.(*ast.GenDecl)
+			if !ok || gd.Tok != token.TYPE {
+				continue
+			}
+			for _, sp := range gd.Specs {
+				ts := sp.(*ast.TypeSpec)
+				st, ok := ts.Type.(*ast.StructType)
+				if !ok || ts.Name.Name != "filters" {
+					continue
+				}
+				found = true
+				n := 0
+				for _, fl := range st.Fields.List {
+					if strings.Contains(exprStr(ff.fset, fl.Type), "sync.") {
+						stateless = false
+					}
+					if len(fl.Names) == 0 {
+						stateless = false // embedded member
+					}
+					for _, nm := range fl.Names {
+						n++
+						if !want[nm.Name] {
+							stateless = false
+						}
+					}
+				}
+				if n != len(want) {
+					stateless = false
+				}
+			}
+		}
+		if !found {
+			anchorLost("%s: struct filters not found", rel)
+			return
+		}
+		for _, g := range [][2]string{{"filters.getMiddlewareClientFilter", "cfms"}, {"filters.getMiddlewareServerFilter", "sfms"}} {
+			fd := ff.funcDecl(g[0])
+			if fd == nil || fd.Recv == nil || len(fd.Recv.List) != 1 || len(fd.Recv.List[0].Names) != 1 {
+				anchorLost("%s: %s not found", rel, g[0])
+				return
+			}
+			recv := fd.Recv.List[0].Names[0].Name
+			readsList := false
+			ast.Inspect(fd.Body, func(n ast.Node) bool {
+				switch x := n.(type) {
+				case *ast.FuncLit:
+					// the innermost filter literal has parameters of its own (one of them may shadow the
+					// receiver's name): it is not part of the getter's own statements
+					return false
+				case *ast.CallExpr:
+					if se, ok := x.Fun.(*ast.SelectorExpr); ok && se.Sel.Name == "Do" {
+						stateless = false
+					}
+				case *ast.AssignStmt:
+					for _, l := range x.Lhs {
+						if strings.HasPrefix(exprStr(ff.fset, l), recv+".") {
+							stateless = false
+						}
+					}
+				case *ast.ReturnStmt:
+					for _, r := range x.Results {
+						if strings.HasPrefix(exprStr(ff.fset, r), recv+".") {
+							stateless = false
+						}
+					}
+				case *ast.SelectorExpr:
+					if exprStr(ff.fset, x) == recv+"."+g[1] {
+						readsList = true
+					}
+				}
+				return true
+			})
+			if !readsList {
+				stateless = false
+			}
+		}
+		for _, u := range [][2]string{{"filters.UseClientFilterMiddleware", "cfms"}, {"filters.UseServerFilterMiddleware", "sfms"}} {
+			fd := ff.funcDecl(u[0])
+			if fd == nil || fd.Recv == nil || len(fd.Recv.List) != 1 || len(fd.Recv.List[0].Names) != 1 {
+				anchorLost("%s: %s not found", rel, u[0])
+				return
+			}
+			recv := fd.Recv.List[0].Names[0].Name
+			appends := false
+			ast.Inspect(fd.Body, func(n ast.Node) bool {
+				as, ok := n.(*ast.AssignStmt)
+				if ok && len(as.Lhs) == 1 && len(as.Rhs) == 1 && exprStr(ff.fset, as.Lhs[0]) == recv+"."+u[1] &&
+					strings.HasPrefix(exprStr(ff.fset, as.Rhs[0]), "append("+recv+"."+u[1]+",") {
+					appends = true
+				}
+				return true
+			})
+			if !appends {
+				stateless = false
+			}
+		}
+		v := int64(0)
+		if stateless {
+			v = 1
+		}
+		add("cpMwGetterStateless", v, true)
 	})
 }
